@@ -253,6 +253,12 @@ def c17_codec(stream, res, impl):
                     k += 1
                 return "stream of %d messages cut at %s delivered %d messages (first difference at message %d)" % (
                     len(written), kv.get("cuts", ""), len(got), k)
+        if t[1] == "http" and "reqlen" in _kv(op):
+            kv = _kv(op)
+            ms, mc, rl, pl = int(kv["maxs"]), int(kv["maxc"]), int(kv["reqlen"]), int(kv.get("resplen", "0"))
+            if (ms == 0 or rl <= ms) and out != "ok intact" and (mc == 0 or pl <= mc or pl < 200):
+                return "HTTP exchange (request body %d bytes%s, reply of %s characters, limits %d/%d): the message did not arrive intact: %s" % (
+                    rl, ", sent chunked" if kv.get("chunked") == "1" else "", kv.get("resp"), ms, mc, out)
         if t[1] == "ws":
             kv = _kv(op)
             n = int(kv["writers"]) * int(kv["each"])
@@ -267,6 +273,7 @@ def c18_agent(stream, res, impl):
     if stream["component"] != "agent":
         return None
     strict = False
+    target = None
     for op, out in zip(res, impl):
         t = op.split()
         if len(t) < 2:
@@ -274,9 +281,19 @@ def c18_agent(stream, res, impl):
         kv = _kv(op)
         if t[1] == "setup":
             strict = kv.get("strict") == "1"
+            target = int(kv["target"]) if kv.get("target", "").lstrip("-").isdigit() else None
         if t[1] == "round":
             okv = _kv(out)
             calls = [c for c in okv.get("calls", "").split(",") if c]
+            if kv.get("update") == "ok" and kv.get("failat") == "-" and okv.get("result") == "ok" and target is not None and "peer" in okv:
+                # exactly the shortfall against the pool's active list is requested, nothing when there is none
+                active = [a for a in kv.get("active", "").split(",") if a]
+                want = target - len(active)
+                asked = okv["peer"]
+                n_asked = 0 if asked == "none" else int(asked.split("/")[0]) if asked.split("/")[0].lstrip("-").isdigit() else None
+                if n_asked is not None and n_asked != max(want, 0):
+                    return "target %d, the pool lists %d active peers: the agent asked for %s hosts, the shortfall is %d" % (
+                        target, len(active), "no" if asked == "none" else n_asked, max(want, 0))
             if kv.get("update") != "ok" and (calls or okv.get("peer") != "none"):
                 return "failed keep-alive but the agent acted on the node: %s" % out[:200]
             if kv.get("update") == "ok" and not strict:
@@ -650,8 +667,23 @@ def c04_altered_refused(stream, res, impl):
     return None
 
 
+def c04_sigstorm(stream, res, impl):
+    """many identities verified at once: every genuine fresh request accepted, every altered one refused"""
+    if stream["component"] != "conc":
+        return None
+    for op, out in zip(res, impl):
+        t = op.split()
+        if len(t) > 1 and t[1] == "sigstorm":
+            kv = _kv(out)
+            if kv.get("alteredaccepted", "0") != "0":
+                return "%s requests whose parameters were altered after signing were honoured while other requests were being verified (%s)" % (kv["alteredaccepted"], kv.get("first", ""))
+            if kv.get("goodrefused", "0") != "0":
+                return "%s correctly signed fresh requests were refused as badly signed while other requests were being verified (%s)" % (kv["goodrefused"], kv.get("first", ""))
+    return None
+
+
 def c04_c06(stream, res, impl):
-    return c04_altered_refused(stream, res, impl) or c06_refused_no_effect(stream, res, impl)
+    return c04_sigstorm(stream, res, impl) or c04_altered_refused(stream, res, impl) or c06_refused_no_effect(stream, res, impl)
 
 
 def c03_cutoff(stream, res, impl):
@@ -938,23 +970,34 @@ def c03_binary(stream, res, impl):
     if stream["component"] != "poolbin":
         return c03_cutoff(stream, res, impl)
     minb, price, flagmin = None, None, ""
+    bal = {}
     for op, out in zip(res, impl):
         t = op.split()
         if len(t) < 2:
             continue
         if t[0] == "case":
             minb, price = None, None
+            bal = {}
         if t[1] == "start" and out == "ok":
             kv = _kv(op)
             flagmin = kv.get("min", "")
             minb = None if kv.get("min") == "off" else _ether_flag(kv.get("min", ""))
             price = _ether_flag(kv.get("price", ""))
+            bal = {}
+        elif t[1] == "kbill" and "cur" in _kv(op):
+            cur = int(_kv(op)["cur"])
+            bal[t[2]] = cur
+            if minb is not None and cur < minb and out == "ok":
+                return "minimum balance configured as `%s` (= %d wei): the keep-alive that left client %s with %d wei was not refused (no cut-off)" % (flagmin, minb, t[2], cur)
+            if (minb is None or cur >= minb) and out.startswith("err LowBalance"):
+                return "minimum balance `%s`: client %s with %d wei was cut off (%s)" % (flagmin, t[2], cur, out)
         elif t[1] == "client" and minb is not None:
-            # a fresh light client has a balance of 0
-            if minb > 0 and out == "ok":
-                return "minimum balance configured as `%s` (= %d wei): a client with balance 0 was admitted" % (flagmin, minb)
-            if minb <= 0 and out.startswith("err LowBalance"):
-                return "minimum balance %d wei: a client with balance 0 was refused (%s)" % (minb, out)
+            # a light client that was never billed has a balance of 0
+            b = bal.get(t[2], 0)
+            if minb > b and out == "ok":
+                return "minimum balance configured as `%s` (= %d wei): a client with balance %d was admitted" % (flagmin, minb, b)
+            if minb <= b and out.startswith("err LowBalance"):
+                return "minimum balance %d wei: a client with balance %d was refused (%s)" % (minb, b, out)
         elif t[1] == "kalive" and price is not None and price > 0 and out.startswith("err InvalidSettings"):
             return "price configured as %d wei per minute, yet the client's keep-alive is refused as `invalid interval settings` (the price was read as 0)" % price
     return None
